@@ -252,6 +252,35 @@ struct Explorer {
         }
     }
 
+    // family (f): a box that is 2^h wide in dimension 0 and two cells thick in dimension 1, with a run of m misses that is the last thing
+    // below x = 2^h on the Z curve: BIGMIN must jump across the bit of weight 2^h, for every h the coordinate type can hold (so the
+    // deciding bit of the Morton code is every multiple of D up to the top of the code word).
+    void family_widebox(int h, int m, int variant) {
+        const T X = T(T(1) << h);
+        P in0{}, miss{}, in1{}, in2{}, beyond{}, mn{}, mx{};
+        in0[0] = 1; in0[1] = 1;
+        miss[0] = T(X - 1); miss[1] = variant == 0 ? 3 : 2;
+        in1[0] = X; in1[1] = 0;
+        in2[0] = T(X + 3); in2[1] = 1;
+        beyond[0] = T(X + 4); beyond[1] = 0;
+        mx[0] = T(X + 3); mx[1] = 1;
+        std::vector<std::pair<P, int>> cells = {{in0, 1}, {miss, m}, {in1, variant == 2 ? 0 : 1}, {in2, 2}, {beyond, 1}};
+        if (variant == 2) { P alt{}; alt[0] = T(X + 2); alt[1] = 0; cells.push_back({alt, 1}); }   // the first hit beyond the jump is not the corner of the upper half
+        std::sort(cells.begin(), cells.end(), [](auto &a, auto &b) { return my_morton<D, T>(a.first) < my_morton<D, T>(b.first); });
+        cells.erase(std::remove_if(cells.begin(), cells.end(), [](auto &c) { return c.second == 0; }), cells.end());
+        std::string spec = spec_str(cells);
+        Built b{};
+        if (!build(cells, spec, b)) return;
+        if (h == 5 && m == 65 && variant == 0) run.sample(case_of(spec, "*wide thin boxes*"));
+        if (prop == 13 || prop == 17) {
+            check_box(b, mn, mx, spec);
+            P mn2 = mn; mn2[0] = 1; check_box(b, mn2, mx, spec);
+            P mx2 = mx; mx2[0] = T(X + 4); check_box(b, mn, mx2, spec);
+        }
+        if (prop == 14 || prop == 17) { check_contains(b, in1, spec); check_contains(b, miss, spec); P absent = in1; absent[1] = 1; check_contains(b, absent, spec); }
+        delete b.idx;
+    }
+
     // family (e): more than 2^15 points, so that the index over the Morton codes is built by the chunked builder with p chunks; a dense
     // grid plus `tail` far points that do not follow the trend of the last segment (and make n % p non-zero).
     void family_large(int p, int tail) {
@@ -328,6 +357,10 @@ struct Thunk {
     static void run(Run &r, Cn &c, int prop, const Task &t) {
         Explorer<D, T, E> ex{r, c, prop, name()};
         if (t.kind == 5) { ex.family_large(int(t.G), int(t.lo0)); return; }
+        if (t.kind == 6) {
+            for (int h = 3; h <= int(sizeof(T) * 8 / D) - 2; ++h) for (int m : {64, 65, 66, 130}) for (int v = 0; v < 3; ++v) { ex.family_widebox(h, m, v); if (r.deadline_passed()) return; }
+            return;
+        }
         if (t.kind == 3) {
             // lo0 selects the slice: single runs of every length 1..600, or every split of a set of critical totals into two runs
             if (t.lo0 == 0) { for (int m = int(t.G); m < int(t.G) + 50 && m <= 600; ++m) { ex.family_missrun(m, 0); if (m % 5 == 0 || (m >= 60 && m <= 70)) ex.family_missrun(m, 0, true); if (r.deadline_passed()) return; } }
@@ -418,6 +451,8 @@ int main(int argc, char **argv) {
         for (long G : grids) for (long lo0 = 0; lo0 < G; ++lo0) { Task t{int(c), 1, {}, 0, G, lo0, {}}; tasks.push_back(t); }
         // (e) chunked construction of the index over the codes: > 2^15 points, 2/8/20 chunks, 7 or 19 far tail points
         if (D <= 3 && (c == 0 || c == 3 || thorough) && (!asan || thorough)) for (long p : {2L, 8L, 20L}) for (long tail : {7L, 19L}) { Task t{int(c), 5, {}, 0, p, tail, {}}; tasks.push_back(t); }
+        // (f) wide thin boxes: BIGMIN jumps across every bit of the coordinate type
+        { Task t{int(c), 6, {}, 0, 0, 0, {}}; tasks.push_back(t); }
         // (d) miss-run lengths (2D): every run length 1..600, and every split of the critical totals into two runs
         if (D == 2) {
             for (long m = 1; m <= 600; m += 50) { Task t{int(c), 3, {}, 0, m, 0, {}}; tasks.push_back(t); }
@@ -440,7 +475,7 @@ int main(int argc, char **argv) {
     ev.states_counter = "point_multisets_indexed"; ev.transitions_counter = prop == 14 ? "contains_queries_checked" : "box_queries_checked";
     ev.nontrivial_counter = "multisets_with_2plus_distinct_points";
     ev.rule = "real miss_threshold=64; points are supplied in enumeration order, lexicographic order and reverse lexicographic order. (a) every multiplicity vector in {0,1,65}^cells over 3x3 (2D) / 2x2x2 (3D) cell universes (65 copies of an out-of-box cell force the bigmin skip), several coordinate sets incl. the largest encodable coordinate; "
-              "(b) full grids 16x16, 32x32, 8x8x8, 4^4 with every axis-aligned box; (c, thorough) 16x16 grid with every {removed,x1,x2} pattern of a 3x3 window; (e) 33124 / 35937 grid points plus 7 or 19 far points, index built with 2, 8 and 20 chunks (chunked construction); (d) miss-run family: a run of m consecutive out-of-box points for every m in 1..600 (and, for every fifth m and 60..70, the same constellation translated to the top bits of the code word) and every split (step 16) of the totals {63..66,127..130,191..193,255..258,319..321,511..513} into two runs separated by an in-box hit, also for Epsilon 32 and 64. " +
+              "(b) full grids 16x16, 32x32, 8x8x8, 4^4 with every axis-aligned box; (c, thorough) 16x16 grid with every {removed,x1,x2} pattern of a 3x3 window; (e) 33124 / 35937 grid points plus 7 or 19 far points, index built with 2, 8 and 20 chunks (chunked construction); (f) wide thin boxes (2^h wide for every h the coordinate type holds, miss runs of 64/65/66/130 that end just below x = 2^h, three placements of the first hit beyond): BIGMIN decisions at every bit of the code word, all dimensions and coordinate types; (d) miss-run family: a run of m consecutive out-of-box points for every m in 1..600 (and, for every fifth m and 60..70, the same constellation translated to the top bits of the code word) and every split (step 16) of the totals {63..66,127..130,191..193,255..258,319..321,511..513} into two runs separated by an in-box hit, also for Epsilon 32 and 64. " +
               std::string(prop == 14 ? "Every cell of the universe and cells just outside it / at the largest encodable coordinate are passed to contains(); oracle: membership in the multiset."
                                      : "Every box over the axis values is enumerated; oracle: brute-force filter sorted by the harness's own Morton code, with multiplicity; iteration must end within n+2 steps.") +
               " State = one indexed multiset; transition = one query; non-trivial = at least two distinct points.";
